@@ -296,9 +296,26 @@ Record obs := mk_obs {
 Definition oci_of (i : input) := match i_kind i with OCI => i_doc i | Blob => i_other i end.
 Definition blob_of (i : input) := match i_kind i with OCI => i_other i | Blob => i_doc i end.
 
-Definition model (i : input) : obs :=
+Definition other_kind (k : kind) : kind := match k with OCI => Blob | Blob => OCI end.
+
+(* what the harness observes, written with the specification functions *)
+Definition model_spec (i : input) : obs :=
   let v := validate_ptr (i_kind i) (i_doc i) in
   mk_obs v (validate_json (i_kind i) (i_doc i)) (new_verifier (oci_of i) (blob_of i))
+    (match v, i_doc i with EOk, Some d => map level_obs (d_stmts d) | _, _ => [] end).
+
+(* the same function with every Validate evaluated once (vm_compute shares a
+   let-bound value); [model = model_spec] is lemma model_is_spec *)
+Definition model (i : input) : obs :=
+  let v := validate_ptr (i_kind i) (i_doc i) in
+  let vj := match i_doc i with None => validate (i_kind i) (mk_doc "" []) | Some _ => v end in
+  let vd := match i_doc i with None => EOk | Some _ => v end in
+  let vo := match i_other i with None => EOk | Some d => validate (other_kind (i_kind i)) d end in
+  let nv := match i_doc i, i_other i with
+            | None, None => EBothNil
+            | _, _ => match i_kind i with OCI => vd ;; vo | Blob => vo ;; vd end
+            end in
+  mk_obs v vj nv
     (match v, i_doc i with EOk, Some d => map level_obs (d_stmts d) | _, _ => [] end).
 
 (* ---------- the declarative rules, as a boolean checker ----------
@@ -441,33 +458,30 @@ Fixpoint levels_ok (ss : list stmt) (ls : list (option (string * string))) : boo
   | _, _ => false
   end.
 
-Definition given_ok (k : kind) (d : option doc) : bool :=
-  match d with None => true | Some d => wellformed_b k d end.
+(* a verifier is constructed iff at least one document is given and every
+   given document obeys the rules *)
+Definition new_expected (i : input) (acc_doc : bool) : bool :=
+  match i_doc i, i_other i with
+  | None, None => false
+  | None, Some o => wellformed_b (other_kind (i_kind i)) o
+  | Some _, None => acc_doc
+  | Some _, Some o => acc_doc && wellformed_b (other_kind (i_kind i)) o
+  end.
 
-Definition spec_ok (i : input) (o : obs) : bool :=
-  (* accepted iff every rule holds, on both routes *)
-  Bool.eqb (is_ok (o_val o)) (accept_expected (i_kind i) (i_doc i))
-  && Bool.eqb (is_ok (o_json o)) (accept_expected (i_kind i) (i_doc i))
-  (* a verifier is constructed iff at least one document is given and every
-     given document obeys the rules *)
-  && Bool.eqb (is_ok (o_new o))
-       ((match i_doc i, i_other i with None, None => false | _, _ => true end)
-        && given_ok OCI (oci_of i) && given_ok Blob (blob_of i))
-  (* every statement of an accepted document yields a level enforcing integrity
-     unless it is skip *)
-  && (if is_ok (o_val o)
-      then match i_doc i with Some d => levels_ok (d_stmts d) (o_levels o) | None => false end
-      else true).
-
-(* footprint: which clause of the oracle failed (1 accept/reject on the struct,
-   2 JSON route, 3 construction, 4 integrity of the yielded levels) *)
+(* which clause of the oracle fails first (0 = none): 1 accept/reject on the
+   struct, 2 the JSON route, 3 construction of a verifier, 4 integrity of the
+   yielded levels *)
 Definition fp (i : input) (o : obs) : N :=
-  if negb (Bool.eqb (is_ok (o_val o)) (accept_expected (i_kind i) (i_doc i))) then 1
-  else if negb (Bool.eqb (is_ok (o_json o)) (accept_expected (i_kind i) (i_doc i))) then 2
-  else if negb (Bool.eqb (is_ok (o_new o))
-       ((match i_doc i, i_other i with None, None => false | _, _ => true end)
-        && given_ok OCI (oci_of i) && given_ok Blob (blob_of i))) then 3
-  else 4.
+  let a := accept_expected (i_kind i) (i_doc i) in
+  if negb (Bool.eqb (is_ok (o_val o)) a) then 1
+  else if negb (Bool.eqb (is_ok (o_json o)) a) then 2
+  else if negb (Bool.eqb (is_ok (o_new o)) (new_expected i a)) then 3
+  else if is_ok (o_val o)
+       && negb (match i_doc i with Some d => levels_ok (d_stmts d) (o_levels o) | None => false end)
+  then 4
+  else 0.
+
+Definition spec_ok (i : input) (o : obs) : bool := (fp i o =? 0)%N.
 
 (* ---------- boolean equalities ---------- *)
 
